@@ -7,20 +7,34 @@ From Coq Require Import List Arith Bool PeanoNat Lia NArith.
 Import ListNotations.
 From Zepid Require Import Model.Dag.
 
-Definition check5 (os : list nat) : bool :=
-  let g := graph5 os in
+Definition check_graph (g : graph) (x y : nat) : bool :=
   let RG := reach_tbl (nodes g) (edges g) in
   if is_dag_tbl (nodes g) RG then
-    let RH := reach_tbl (nodes g) (drop_out 0 (edges g)) in
-    forallb (fun Z => Bool.eqb (valid_core false RG (nodes g) (edges g) 0 1 Z)
-                               (valid_spec_core RG RH (nodes g) (edges g) 0 1 Z) &&
-                      Bool.eqb (valid_path_core RG RH (nodes g) (edges g) 0 1 Z)
-                               (valid_spec_core RG RH (nodes g) (edges g) 0 1 Z))
-            (all_subsets [2; 3; 4])
+    let RH := reach_tbl (nodes g) (drop_out x (edges g)) in
+    forallb (fun Z => Bool.eqb (valid_core false RG (nodes g) (edges g) x y Z)
+                               (valid_spec_core RG RH (nodes g) (edges g) x y Z) &&
+                      Bool.eqb (valid_path_core RG RH (nodes g) (edges g) x y Z)
+                               (valid_spec_core RG RH (nodes g) (edges g) x y Z))
+            (candidates g x y)
   else true.
 
+(* generic in g: nothing concrete to unfold, so every conversion below is immediate *)
+Lemma check_graph_elim g x y : check_graph g x y = true -> is_dag g = true ->
+  forall Z, In Z (candidates g x y) ->
+    valid_alg g x y Z = valid_specb g x y Z /\ valid_pathb g x y Z = valid_specb g x y Z.
+Proof.
+  unfold check_graph, is_dag, valid_alg, valid_specb, valid_pathb.
+  intros H Hd Z HZ. cbv zeta in H. rewrite Hd in H.
+  rewrite forallb_forall in H. specialize (H Z HZ).
+  apply andb_true_iff in H. destruct H as [H1 H2].
+  apply eqb_prop in H1. apply eqb_prop in H2. split; [exact H1 | exact H2].
+Qed.
+
+Notation check5 := (fun os : list nat => check_graph (graph5 os) 0 1).
+
+(* vm_cast_no_check: the term is checked (by the kernel's VM) once, at Qed, instead of twice *)
 Lemma check5_all : forallb check5 all_orient5 = true.
-Proof. vm_compute. reflexivity. Qed.
+Proof. vm_cast_no_check (eq_refl true). Qed.
 
 Lemma dag5_count : N.of_nat (length (filter (fun os => is_dag (graph5 os)) all_orient5)) = 8816%N /\
                     N.of_nat (length all_orient5) = 19683%N.
@@ -37,22 +51,14 @@ Proof.
   - apply in_map. apply IH; auto.
 Qed.
 
-(* the candidate sets of graph5 are exactly the sub-lists of [2;3;4] *)
-Lemma candidates5 os : candidates (graph5 os) 0 1 = all_subsets [2; 3; 4].
-Proof. reflexivity. Qed.
-
 Theorem alg_eq_spec_upto5 : forall os, In os all_orient5 -> is_dag (graph5 os) = true ->
   forall Z, In Z (candidates (graph5 os) 0 1) ->
     valid_alg (graph5 os) 0 1 Z = valid_specb (graph5 os) 0 1 Z /\
     valid_pathb (graph5 os) 0 1 Z = valid_specb (graph5 os) 0 1 Z.
 Proof.
-  intros os Hin Hdag Z HZ.
-  pose proof check5_all as H. rewrite forallb_forall in H. specialize (H os Hin).
-  unfold check5 in H. cbv zeta in H.
-  change (is_dag_tbl (nodes (graph5 os)) (reach_tbl (nodes (graph5 os)) (edges (graph5 os)))) with (is_dag (graph5 os)) in H.
-  rewrite Hdag in H. rewrite forallb_forall in H. rewrite candidates5 in HZ. specialize (H Z HZ).
-  apply andb_true_iff in H. destruct H as [H1 H2].
-  apply eqb_prop in H1. apply eqb_prop in H2. split; [exact H1 | exact H2].
+  intros os Hin Hdag.
+  pose proof (proj1 (forallb_forall check5 all_orient5) check5_all os Hin) as H. cbv beta in H.
+  exact (check_graph_elim (graph5 os) 0 1 H Hdag).
 Qed.
 
 (* the moralisation loop as shipped (directed marriage arrows appended to the graph being iterated) loses an
@@ -66,12 +72,16 @@ Proof. vm_compute. repeat split; reflexivity. Qed.
 
 (* on the 5-node universe in canonical insertion order the shipped loop is never unsound and loses sets on
    exactly 22 of the 8816 DAGs *)
-Definition old_loses (os : list nat) : bool :=
+Definition old_stat (os : list nat) : bool * bool :=      (* (never lists a set the repaired algorithm rejects, loses a set) *)
   let g := graph5 os in
-  is_dag g && negb (forallb (fun Z => Bool.eqb (valid_old g 0 1 Z) (valid_alg g 0 1 Z)) (all_subsets [2; 3; 4])).
-Definition old_sound (os : list nat) : bool :=
-  let g := graph5 os in
-  negb (is_dag g) || forallb (fun Z => implb (valid_old g 0 1 Z) (valid_alg g 0 1 Z)) (all_subsets [2; 3; 4]).
+  let R := reach_tbl (nodes g) (edges g) in
+  if is_dag_tbl (nodes g) R then
+    let new := map (valid_core false R (nodes g) (edges g) 0 1) (all_subsets [2; 3; 4]) in
+    let old := map (valid_core true R (nodes g) (edges_view g) 0 1) (all_subsets [2; 3; 4]) in
+    (forallb (fun p => implb (fst p) (snd p)) (combine old new),
+     existsb (fun p => negb (Bool.eqb (fst p) (snd p))) (combine old new))
+  else (true, false).
 Theorem old_moralisation_upto5 :
-  length (filter old_loses all_orient5) = 22 /\ forallb old_sound all_orient5 = true.
-Proof. vm_compute. split; reflexivity. Qed.
+  (forallb (fun os => fst (old_stat os)) all_orient5,
+   N.of_nat (length (filter (fun os => snd (old_stat os)) all_orient5))) = (true, 22%N).
+Proof. vm_cast_no_check (eq_refl (true, 22%N)). Qed.
